@@ -718,6 +718,12 @@ def _family_queries():
         out.append((f'pred.not-{k}', f'select id from t where {neg[k]}'))
         out.append((f'pred.{k}.and', f'select id from t where id > 1 and {preds[k]}'))
         out.append((f'pred.not-{k}.or', f'select id from t where id = 1 or {neg[k]}'))
+    # every clause on its own and in the combinations a renderer may couple wrongly (HAVING without GROUP BY, ORDER BY / LIMIT without WHERE, DISTINCT with ORDER BY)
+    for name, q_ in (('having-no-group', 'select count(*) from t having count(*) > 10'), ('having-no-group-true', 'select count(*) from t having count(*) > 1'),
+                     ('group-no-having', 'select b, count(*) from t group by b'), ('group-having', 'select b, count(*) from t group by b having count(*) > 1'),
+                     ('order-limit', 'select id from t order by id desc limit 2'), ('distinct-order', 'select distinct b from t order by b'), ('offset', 'select id from t order by id limit 2 offset 1'),
+                     ('where-group-order', 'select b, max(a) from t where id > 1 group by b order by b')):
+        out.append((f'clause.{name}', q_))
     for name, lit in (('squote', "it''s"), ('two-squotes', "a''b''c"), ('only-squote', "''"), ('backslash', 'a\\b'), ('percent', '50%'), ('dquote', 'say "x"'), ('comment', "x'' -- y"), ('semicolon', 'a;b'),
                       ('backtick', 'a`b'), ('colon', ':p1'), ('newline', 'a\nb')):
         out.append((f'lit.{name}.select', f"select id, '{lit}' from t where c = 'x'"))
